@@ -7,6 +7,7 @@ C01_single_machine_root C01_no_filtered_type C01_set_in_complete C01_pu_cpuset C
 C01_discovery_by_insertion
 C01_setstage_pre_decidable C01_setstage_set_in_complete C01_setstage_set_in_parent C01_setstage_memory_child_shares_cpuset
 C01_setstage_siblings_disjoint C01_setstage_nodeset_decomposition C01_setstage_allowed_sets C01_setstage_within_allowed C01_setstage_no_object_lost
+C01_setstage_nested_memory_shares_cpuset C01_setstage_nested_memory_within_allowed
 C01_links_of_render C01_renderCheck_sound""".split()]
 TRUSTED = ["C01_discovery_by_insertion is about the model of hwloc___insert_object_by_cpuset (lean/Hw/Topo/Insert.lean); that model is tied to the "
            "code by the C02 history engine, which predicts the exact tree after every hwloc_topology_insert_group_object call (new object = "
@@ -19,7 +20,11 @@ TRUSTED = ["C01_discovery_by_insertion is about the model of hwloc___insert_obje
            "precondition PreSets is evaluated on every BEFORE dump (violations are counted in the evidence: setstage.pre_violated); without the hook in the source the engine observes nothing",
            "harness/dump.h as a faithful reading of the topology through the public API; lean/Driver/Topo.lean as its parser",
            "PARTIAL: that hwloc's loaders (synthetic, XML, Linux, x86, core pipeline) establish WF is NOT proved; it is checked by the proved oracle on every loaded topology of the run"]
-ASSUMPTIONS = ["sources: generated synthetic strings, bundled XML files, bundled Linux and x86 snapshots; flag subsets of {INCLUDE_DISALLOWED, IMPORT_SUPPORT, DONT_CHANGE_BINDING, NO_DISTANCES, NO_MEMATTRS, NO_CPUKINDS}; the live machine is not loaded natively"]
+ASSUMPTIONS = ["sources: generated synthetic strings, bundled XML files, bundled Linux and x86 snapshots, and sources derived from these with random custom "
+               "allowed sets (every type kept, hwloc_topology_allow + XML export, optionally a doubled memory-side cache level: harness/derive.h); "
+               "flag subsets of {INCLUDE_DISALLOWED, IMPORT_SUPPORT, DONT_CHANGE_BINDING, NO_DISTANCES, NO_MEMATTRS, NO_CPUKINDS}, plus "
+               "IS_THISSYSTEM[|THISSYSTEM_ALLOWED_RESOURCES] on synthetic / XML / derived sources (the allowed sets then depend on the cgroup of the "
+               "machine that runs the check: a replay is exact on the same machine only); the live machine is not loaded natively"]
 MODELLED = ("modelled: the well-formedness predicate (every clause of the property) and its consequences; "
             "modelled and proved: hwloc___insert_object_by_cpuset and the set pipeline of hwloc_discover (root fixup, propagate_nodeset, fixup_sets, "
             "remove_unused_sets); not modelled: the back ends, hwloc__attach_memory_object, level connection, filtering, remove_empty, total memory; "
@@ -56,7 +61,7 @@ def replay(path):
         for l in read_lines(path):
             if not l.strip() or l.startswith("#"):
                 continue
-            l = l.replace("@SNAP@", snapshots.SNAP)
+            l = l.replace("@SNAP@", snapshots.SNAP).replace("@REPO@", eng_setstage.REPO).replace("@ROOT@", eng_setstage.ROOT)
             cid = l.split()[0]
             for lx in (0, 1):
                 rr, vv = eng_topoload.replay_case(binp, wd, l, lx)
